@@ -162,6 +162,10 @@ impl<T> Store<T> {
         self.entries.reserve_exact(additional);
     }
 
+    pub(super) fn shrink_to(&mut self, min_capacity: usize) {
+        self.entries.shrink_to(min_capacity);
+    }
+
     /// Insert an object into the store
     pub(super) fn insert<O>(&mut self, item: O) -> Ref<O>
     where
